@@ -552,6 +552,22 @@ FLAGSETS = ["R", "W", "B", "Bc", "Wc", "Bct", "Wct", "Wa", "Ba", "Bca", "Wca", "
             "Rt", "Bx", "Rs", "N", "Nc", "Bcat", "Wcxa", "Rcd", "Bcd", "Ra", "Rct"]
 
 
+def _flags(rng):
+    """Open flags: half of the time one of the common sets, otherwise EVERY combination is possible:
+    access mode R/W/B (rarely the invalid N) and each of append/create/excl/trunc independently
+    (rarely sync or perm=ModeDir) — so also odd ones like O_EXCL|O_TRUNC without O_CREATE."""
+    r = rng.random()
+    if r < 0.4:
+        return rng.choice(FLAGSETS[:13])
+    if r < 0.5:
+        return rng.choice(FLAGSETS)
+    f = rng.choice("RWWBBBB") if rng.random() < 0.97 else "N"
+    for c, pr in (("a", 0.3), ("c", 0.5), ("x", 0.3), ("t", 0.35), ("s", 0.02), ("d", 0.03)):
+        if rng.random() < pr:
+            f += c
+    return f
+
+
 def _gen_case(rng, tier, maxb=None, nops=None, selfrename=False, async_=False):
     maxb = maxb or rng.choice(BLOCKS)
     man = _gen_manifest(rng) if rng.random() < 0.4 else "-"
@@ -649,7 +665,7 @@ def _gen_case(rng, tier, maxb=None, nops=None, selfrename=False, async_=False):
                 if rng.random() < 0.12:
                     op = "create,%d,%s" % (h, p)
                 else:
-                    op = "open,%d,%s,%s" % (h, p, rng.choice(FLAGSETS[:13] if rng.random() < 0.8 else FLAGSETS))
+                    op = "open,%d,%s,%s" % (h, p, _flags(rng))
             sim(op)
             # the steering model may have guessed wrong about success; only keep handle ops on
             # handles that the steering model believes open
